@@ -12,6 +12,8 @@
 """
 from __future__ import annotations
 
+import ast
+
 from fractions import Fraction
 
 from ..affine import Lin, lin
@@ -297,6 +299,53 @@ def run(ctx):
                f"type {tyv} is dispatched after marker 8370, magic 0x20 and low-nibble type tests to {str(target).split('.')[-1]}",
                func=PROC, file=file, node=node2, detail={"facts": [show(f)[:80] for f in facts]},
                fail="a packet is decoded without the marker / magic / type-nibble tests the header layout requires, or by the wrong decoder")
+    def pending_flag_ok(attr):
+        """self.<attr> is a 'handshake outstanding' flag: False from __init__, written elsewhere only by the protocol's
+        authenticate, where it is True exactly around the handshake write / read and False again on every way out."""
+        from .c06 import stores_to, store_owners
+        from ..ctor import init_attrs
+        if init_attrs(prog, prog.cls(V3)).get(attr) != ("const", False):
+            return False
+        owners = set(store_owners(prog, stores_to(prog, V3, attr)))
+        auth = ctx.fn(f"{V3}.authenticate")
+        if not owners <= {f"{V3}.__init__", auth.qual}:
+            return False
+        as_ = summarize(prog, auth)
+        key = f"{auth.params[0]}.{attr}"
+        outs = [rst for _pc, _t, _n, rst in as_.returns] + [rst for _pc, _e, _n, rst in as_.raises]
+        if not outs or any(rst.env.get(key, ("const", False)) != ("const", False) for rst in outs):
+            return False
+        # set to True before the handshake write
+        from ..absint import EventAnalysis, run_events
+        def on_stmt(node, st):
+            ev = []
+            for n in ast.walk(node):
+                if isinstance(n, ast.Assign) and any(isinstance(t, ast.Attribute) and t.attr == attr for t in n.targets) and isinstance(n.value, ast.Constant) and n.value.value is True:
+                    ev.append("armed")
+            return ev
+        ea = EventAnalysis(must=True, on_stmt=on_stmt)
+        run_events(prog, auth, ea)
+        reads = [n for n in ea.at if isinstance(n, ast.stmt) and not isinstance(n, (ast.Try, ast.If, ast.With, ast.For, ast.While)) and
+                 any(isinstance(c, ast.Call) and isinstance(c.func, ast.Attribute) and c.func.attr == "read" for c in ast.walk(n))]
+        return bool(reads) and all("armed" in ea.at[n] for n in reads)
+
+    # ---- C05.f every payload _process_packet hands out for a header-valid packet went through the tag comparison.
+    # The type nibble is itself unauthenticated at this point, so an accepted type that is returned *without* the tag check is
+    # reachable from an encrypted response by altering header bits (3 -> 1 is a single-bit flip).
+    for pc2, ret, node2, _st in ps.returns:
+        if node2 is None:
+            continue
+        verified = ret[0] == "call" and ret[1] == ("func", DEC)
+        # ... or the unauthenticated type is accepted only while a handshake request is outstanding (flag discipline checked below)
+        flag_attrs = {strip(a)[2] for a in atoms(pc2) if strip(a)[0] == "attr" and strip(a)[1] == ("param", pr.params[0])}
+        if not verified and flag_attrs:
+            verified = any(pending_flag_ok(fa) for fa in sorted(flag_attrs))
+        tys = sorted({y[3] for a, b in equality_atoms(atoms(pc2)) for y in (strip(a), strip(b)) if y[0] == "enum" and y[1].endswith("PacketType")})
+        ctx.ob("C05.f", PROC, verified, "the payload returned for an accepted packet has passed the SHA-256 tag comparison", func=PROC, file=file,
+               construct=f"dispatch of packet type {tys[0] if tys else '?'} returns bytes that were not tag-verified",
+               detail={"returns": show(ret)[:120], "path_types": tys},
+               fail=f"_process_packet returns the bytes of a type-{tys[0] if tys else '?'} packet without any tag check: an encrypted response whose type nibble is altered "
+                    f"(3 -> {tys[0] if tys else '?'}) is not rejected with a ProtocolError at this layer")
     ctx.require_min("codecs", 2)
     ctx.require_min("residues", 16)
     ctx.require_min("comparisons", 1)
